@@ -1,6 +1,234 @@
-/- C05 — property theorems.  Stub. -/
-import CBV.Model.C05
+/-
+C05 — property theorems.  One vertex per position class and slave-patch set; vertex numbers are
+dense; the assignment does not depend on the insertion order; slave copies are never shared with
+corners that do not carry exactly the same slave patches.
+-/
+import CBV.Lemmas.C05
+import Mathlib.Data.String.Basic
+
+set_option linter.unusedSectionVars false
 
 namespace CBV.C05
+
+variable {P N : Type} [DecidableEq N] [LinearOrder N] (close : P → P → Bool)
+
+/-! ### dense numbering (every history of `add` calls, the `None` branch included) -/
+
+/-- **T_C05_dense.** After any sequence of `VertexList.add` calls (with a list or with `None`),
+    from any dense state — in particular the empty one — the index of every vertex is its position
+    in `vertices`, i.e. in the written list. -/
+theorem T_C05_dense (calls : List (P × Option (List N))) :
+    ∀ (vl : VList P N), Dense vl → Dense (runAddsOpt close vl calls).1 := by
+  induction calls with
+  | nil => intro vl h; exact h
+  | cons c rest ih =>
+    intro vl h
+    obtain ⟨p, s⟩ := c
+    exact ih _ (add_dense close h p s)
+
+/-- the same for the vertex part of `Mesh.assemble` -/
+theorem T_C05_dense_assemble {S : P → Prop} (hc : CloseEquivOn close S) (slaves : List N) (ops : List (Op P N))
+    (hS : ∀ op ∈ ops, ∀ p ∈ op.pts, S p) :
+    Dense (assemble close slaves {} ops).1 := by
+  obtain ⟨hi, _⟩ := assemble_spec close hc slaves ops (inv_empty close S) hS
+  intro i v hv
+  rw [← hi.reg, List.getElem?_map] at hv
+  cases hd : (assemble close slaves {} ops).1.duplicated[i]? with
+  | none => rw [hd] at hv; simp at hv
+  | some d =>
+    rw [hd] at hv
+    simp only [Option.map_some, Option.some.injEq] at hv
+    subst hv
+    exact hi.dense i d hd
+
+/-! ### the key: same vertex ⇔ same position class and same slave-patch set -/
+
+/-- **T_C05_key (call level).** In a run of `add(point, list)` calls starting from the empty list,
+    two calls are handed the same vertex iff their points are close and their name lists are equal
+    as sorted lists (i.e. up to order). -/
+theorem T_C05_key_adds {S : P → Prop} (hc : CloseEquivOn close S) (calls : List (P × List N))
+    (hS : ∀ c ∈ calls, S c.1) (i j : Nat) (c₁ c₂ : P × List N) (v₁ v₂ : Vertex P)
+    (hi : calls[i]? = some c₁) (hj : calls[j]? = some c₂)
+    (hv₁ : (runAdds close {} calls).2[i]? = some v₁) (hv₂ : (runAdds close {} calls).2[j]? = some v₂) :
+    v₁.index = v₂.index ↔ (close c₁.1 c₂.1 = true ∧ sort c₁.2 = sort c₂.2) := by
+  obtain ⟨h1, _, _, h4⟩ := runAdds_spec close hc calls (inv_empty close S) hS
+  have m₁ : (c₁, v₁) ∈ calls.zip (runAdds close {} calls).2 :=
+    List.mem_of_getElem? (List.getElem?_zip_eq_some.mpr ⟨hi, hv₁⟩)
+  have m₂ : (c₂, v₂) ∈ calls.zip (runAdds close {} calls).2 :=
+    List.mem_of_getElem? (List.getElem?_zip_eq_some.mpr ⟨hj, hv₂⟩)
+  exact placed_same_iff close hc h1 (hS _ (List.mem_of_getElem? hi)) (hS _ (List.mem_of_getElem? hj))
+    (h4 _ m₁) (h4 _ m₂)
+
+/-- **T_C05_key.** After assembling any list of operations (any merged pairs, any patches): corner
+    `c₁` of block `i` and corner `c₂` of block `j` refer to the same vertex iff their points are
+    close (same position within the tolerance) and the sets of slave patches touching the two
+    corners are equal. -/
+theorem T_C05_key {S : P → Prop} (hc : CloseEquivOn close S) (slaves : List N) (ops : List (Op P N))
+    (hS : ∀ op ∈ ops, ∀ p ∈ op.pts, S p)
+    (i j c₁ c₂ : Nat) (o₁ o₂ : Op P N) (p₁ p₂ : P) (v₁ v₂ : Vertex P)
+    (ho₁ : ops[i]? = some o₁) (ho₂ : ops[j]? = some o₂)
+    (hp₁ : o₁.pts[c₁]? = some p₁) (hp₂ : o₂.pts[c₂]? = some p₂)
+    (hv₁ : vertexAt (assemble close slaves {} ops).2 i c₁ = some v₁)
+    (hv₂ : vertexAt (assemble close slaves {} ops).2 j c₂ = some v₂) :
+    v₁.index = v₂.index ↔
+      (close p₁ p₂ = true ∧ ∀ n, n ∈ slaveSet slaves o₁ c₁ ↔ n ∈ slaveSet slaves o₂ c₂) := by
+  obtain ⟨h1, _⟩ := assemble_spec close hc slaves ops (inv_empty close S) hS
+  have q₁ := placed_of_vertexAt close hc slaves ops hS ho₁ hp₁ hv₁
+  have q₂ := placed_of_vertexAt close hc slaves ops hS ho₂ hp₂ hv₂
+  have s₁ : S p₁ := hS o₁ (List.mem_of_getElem? ho₁) p₁ (List.mem_of_getElem? hp₁)
+  have s₂ : S p₂ := hS o₂ (List.mem_of_getElem? ho₂) p₂ (List.mem_of_getElem? hp₂)
+  rw [placed_same_iff close hc h1 s₁ s₂ q₁ q₂]
+  have nd : ∀ (o : Op P N) (c : Nat), (slaveSet slaves o c).Nodup := by
+    intro o c
+    unfold slaveSet patchesAtCorner setOf
+    exact (nodup_dedupe _).filter _
+  simp only [sort_eq_sort_iff_of_nodup (nd o₁ c₁) (nd o₂ c₂)]
+
+/-- every corner has a vertex (totality: the statement above is not vacuous) -/
+theorem T_C05_total {S : P → Prop} (hc : CloseEquivOn close S) (slaves : List N) (ops : List (Op P N))
+    (hS : ∀ op ∈ ops, ∀ p ∈ op.pts, S p) (i c : Nat) (o : Op P N) (p : P)
+    (ho : ops[i]? = some o) (hp : o.pts[c]? = some p) :
+    ∃ v, vertexAt (assemble close slaves {} ops).2 i c = some v :=
+  vertexAt_total close hc slaves ops hS i c o p ho hp
+
+/-- the vertex of a corner sits at the corner (within the tolerance) -/
+theorem T_C05_position {S : P → Prop} (hc : CloseEquivOn close S) (slaves : List N) (ops : List (Op P N))
+    (hS : ∀ op ∈ ops, ∀ p ∈ op.pts, S p) (i c : Nat) (o : Op P N) (p : P) (v : Vertex P)
+    (ho : ops[i]? = some o) (hp : o.pts[c]? = some p)
+    (hv : vertexAt (assemble close slaves {} ops).2 i c = some v) :
+    close p v.pos = true :=
+  vertexAt_position close hc slaves ops hS i c o p v ho hp hv
+
+/-! ### consequences -/
+
+/-- **T_C05_order.** The partition of the corners into vertices does not depend on the insertion
+    order (nor on anything else but the corners themselves): if two assemblies — e.g. one a
+    permutation of the other — both contain operations `o₁` and `o₂`, then corner `c₁` of `o₁` and
+    corner `c₂` of `o₂` share a vertex in the one iff they do in the other.  (The vertex *numbers*
+    differ by the bijection between the two partitions.) -/
+theorem T_C05_order {S : P → Prop} (hc : CloseEquivOn close S) (slaves : List N) (ops ops' : List (Op P N))
+    (hS : ∀ op ∈ ops, ∀ p ∈ op.pts, S p) (hS' : ∀ op ∈ ops', ∀ p ∈ op.pts, S p)
+    (i j i' j' c₁ c₂ : Nat) (o₁ o₂ : Op P N) (p₁ p₂ : P) (v₁ v₂ w₁ w₂ : Vertex P)
+    (ho₁ : ops[i]? = some o₁) (ho₂ : ops[j]? = some o₂)
+    (ho₁' : ops'[i']? = some o₁) (ho₂' : ops'[j']? = some o₂)
+    (hp₁ : o₁.pts[c₁]? = some p₁) (hp₂ : o₂.pts[c₂]? = some p₂)
+    (hv₁ : vertexAt (assemble close slaves {} ops).2 i c₁ = some v₁)
+    (hv₂ : vertexAt (assemble close slaves {} ops).2 j c₂ = some v₂)
+    (hw₁ : vertexAt (assemble close slaves {} ops').2 i' c₁ = some w₁)
+    (hw₂ : vertexAt (assemble close slaves {} ops').2 j' c₂ = some w₂) :
+    v₁.index = v₂.index ↔ w₁.index = w₂.index := by
+  rw [T_C05_key close hc slaves ops hS i j c₁ c₂ o₁ o₂ p₁ p₂ v₁ v₂ ho₁ ho₂ hp₁ hp₂ hv₁ hv₂,
+    T_C05_key close hc slaves ops' hS' i' j' c₁ c₂ o₁ o₂ p₁ p₂ w₁ w₂ ho₁' ho₂' hp₁ hp₂ hw₁ hw₂]
+
+/-- a permutation of the operations contains the same operations (so `T_C05_order` applies to
+    every pair of corners) -/
+theorem T_C05_order_perm (ops ops' : List (Op P N)) (h : ops.Perm ops') (i : Nat) (o : Op P N)
+    (ho : ops[i]? = some o) : ∃ i' : Nat, ops'[i']? = some o :=
+  List.mem_iff_getElem?.mp (h.subset (List.mem_of_getElem? ho))
+
+/-- **T_C05_master_slave.** A corner touched by at least one slave patch never shares its vertex
+    with a corner whose set of slave patches is different — in particular not with a corner that no
+    slave patch touches (all corners of master-side blocks that are not themselves slaves). -/
+theorem T_C05_master_slave {S : P → Prop} (hc : CloseEquivOn close S) (slaves : List N) (ops : List (Op P N))
+    (hS : ∀ op ∈ ops, ∀ p ∈ op.pts, S p)
+    (i j c₁ c₂ : Nat) (o₁ o₂ : Op P N) (p₁ p₂ : P) (v₁ v₂ : Vertex P)
+    (ho₁ : ops[i]? = some o₁) (ho₂ : ops[j]? = some o₂)
+    (hp₁ : o₁.pts[c₁]? = some p₁) (hp₂ : o₂.pts[c₂]? = some p₂)
+    (hv₁ : vertexAt (assemble close slaves {} ops).2 i c₁ = some v₁)
+    (hv₂ : vertexAt (assemble close slaves {} ops).2 j c₂ = some v₂)
+    (n : N) (hn : n ∈ slaveSet slaves o₁ c₁) (hn' : n ∉ slaveSet slaves o₂ c₂) :
+    v₁.index ≠ v₂.index := by
+  intro h
+  have := (T_C05_key close hc slaves ops hS i j c₁ c₂ o₁ o₂ p₁ p₂ v₁ v₂ ho₁ ho₂ hp₁ hp₂ hv₁ hv₂).mp h
+  exact hn' ((this.2 n).mp hn)
+
+/-- … and slave copies are shared among the blocks that carry the same slave patches there -/
+theorem T_C05_slave_shared {S : P → Prop} (hc : CloseEquivOn close S) (slaves : List N) (ops : List (Op P N))
+    (hS : ∀ op ∈ ops, ∀ p ∈ op.pts, S p)
+    (i j c₁ c₂ : Nat) (o₁ o₂ : Op P N) (p₁ p₂ : P) (v₁ v₂ : Vertex P)
+    (ho₁ : ops[i]? = some o₁) (ho₂ : ops[j]? = some o₂)
+    (hp₁ : o₁.pts[c₁]? = some p₁) (hp₂ : o₂.pts[c₂]? = some p₂)
+    (hv₁ : vertexAt (assemble close slaves {} ops).2 i c₁ = some v₁)
+    (hv₂ : vertexAt (assemble close slaves {} ops).2 j c₂ = some v₂)
+    (hclose : close p₁ p₂ = true) (hsame : ∀ n, n ∈ slaveSet slaves o₁ c₁ ↔ n ∈ slaveSet slaves o₂ c₂) :
+    v₁.index = v₂.index :=
+  (T_C05_key close hc slaves ops hS i j c₁ c₂ o₁ o₂ p₁ p₂ v₁ v₂ ho₁ ho₂ hp₁ hp₂ hv₁ hv₂).mpr ⟨hclose, hsame⟩
+
+/-- **T_C05_sorted.** The order in which the names are listed (python iterates over a `set`) has
+    no influence on `add`. -/
+theorem T_C05_sorted (vl : VList P N) (p : P) (s s' : List N) (h : s.Perm s') :
+    add close vl p (some s) = add close vl p (some s') := by
+  rw [add_some_eq, add_some_eq, (sort_eq_sort_iff s s').mpr h]
+
+/-- which names touch a corner: exactly the patches of the sides that contain the corner
+    according to the generated `FACE_MAP` / `SIDES_MAP` -/
+def sideOf (op : Op P N) (side : String) : Option N :=
+  if side = "bottom" then op.bottom else if side = "top" then op.top
+  else op.sides.getD (CBV.Gen.sidesMap.idxOf side) none
+
+theorem T_C05_corner_sides (op : Op P N) (hs : op.sides.length = 4) (c : Nat) (hc : c < 8) (n : N) :
+    n ∈ patchesAtCorner op c ↔
+      ∃ e ∈ CBV.Gen.faceMap, c ∈ e.2 ∧ sideOf op e.1 = some n := by
+  obtain ⟨pts, b, t, sides⟩ := op
+  match sides, hs with
+  | [s0, s1, s2, s3], _ =>
+    unfold patchesAtCorner setOf
+    rw [mem_dedupe]
+    have : c = 0 ∨ c = 1 ∨ c = 2 ∨ c = 3 ∨ c = 4 ∨ c = 5 ∨ c = 6 ∨ c = 7 := by omega
+    rcases this with h | h | h | h | h | h | h | h <;> subst h <;>
+      simp [CBV.Gen.faceMap, CBV.Gen.sidesMap, sideOf, List.idxOf, List.findIdx, List.findIdx.go] <;> tauto
+
+/-- the generated probe of `get_patches_at_corner` agrees with the model and with the blockMesh
+    convention (corner `c` has coordinates `(c%4 ∈ {1,2}, c%4 ∈ {2,3}, c ≥ 4)`) -/
+def bmCoord (c : Nat) : Bool × Bool × Bool := (c % 4 == 1 || c % 4 == 2, c % 4 == 2 || c % 4 == 3, decide (c ≥ 4))
+
+def bmOnSide (side : String) (c : Nat) : Bool :=
+  if side = "bottom" then !(bmCoord c).2.2 else if side = "top" then (bmCoord c).2.2
+  else if side = "left" then !(bmCoord c).1 else if side = "right" then (bmCoord c).1
+  else if side = "front" then !(bmCoord c).2.1 else if side = "back" then (bmCoord c).2.1 else false
+
+def probeOp : Op Nat String :=
+  { pts := [0, 1, 2, 3, 4, 5, 6, 7], bottom := some "bottom", top := some "top",
+    sides := CBV.Gen.sidesMap.map some }
+
+theorem T_C05_corner_table :
+    CBV.Gen.c05CornerSides.length = 8 ∧
+    ∀ c ∈ List.range 8, ∀ s ∈ ["bottom", "top", "left", "right", "front", "back"],
+      (decide (s ∈ CBV.Gen.c05CornerSides.getD c [])) = bmOnSide s c ∧
+      (decide (s ∈ patchesAtCorner probeOp c)) = bmOnSide s c := by decide
+
+/-! ### non-vacuity -/
+
+/-- the hypothesis `CloseEquivOn closeV3 S` is satisfiable for the real tolerance test on a point
+    set with two points inside one tolerance ball and others far away -/
+def samplePts : List V3 := [⟨0, 0, 0⟩, ⟨1 / 100000000, 0, 0⟩, ⟨1, 0, 0⟩, ⟨1, 1 / 100000, 0⟩]
+
+example : CloseEquivOn closeV3 (· ∈ samplePts) := closeEquivOn_of_check _ (by decide +kernel)
+
+/-- two cells sharing a face, the second one with a slave patch on the shared side: the four
+    shared corners get copies, 16 vertices instead of 12 -/
+def sampleOps : List (Op Nat String) :=
+  [{ pts := [0, 1, 2, 3, 4, 5, 6, 7] },
+   { pts := [1, 8, 9, 2, 5, 10, 11, 6], sides := [none, none, none, some "slave"] }]
+
+example : ((assemble (fun (a b : Nat) => a == b) ["slave"] {} sampleOps).2.map (·.map (·.index))) =
+    [[0, 1, 2, 3, 4, 5, 6, 7], [8, 9, 10, 11, 12, 13, 14, 15]] := by decide
+
+example : ((assemble (fun (a b : Nat) => a == b) [] {} sampleOps).2.map (·.map (·.index))) =
+    [[0, 1, 2, 3, 4, 5, 6, 7], [1, 8, 9, 2, 5, 10, 11, 6]] := by decide
+
+/-- the hypotheses of `T_C05_key` / `T_C05_master_slave` are satisfiable: corner 1 of the first cell and
+    corner 0 of the second are the same point, the second is touched by the slave patch -/
+example (v₁ v₂ : Vertex Nat)
+    (h₁ : vertexAt (assemble (fun (a b : Nat) => a == b) ["slave"] {} sampleOps).2 0 1 = some v₁)
+    (h₂ : vertexAt (assemble (fun (a b : Nat) => a == b) ["slave"] {} sampleOps).2 1 0 = some v₂) :
+    v₂.index ≠ v₁.index :=
+  T_C05_master_slave _ closeEquiv_eq ["slave"] sampleOps (fun _ _ _ _ => trivial) 1 0 0 1 _ _ 1 1 v₂ v₁
+    rfl rfl rfl rfl h₂ h₁ "slave" (by decide) (by decide)
+
+/-- the `None` branch (not reachable from `Mesh`): a second master-side request at a position
+    whose first vertex is a slave copy creates yet another vertex -/
+example : (runAddsOpt (fun (a b : Nat) => a == b) {} [(0, some ["s"]), (0, none), (0, none)]).2.map (·.index)
+    = [0, 1, 2] := by decide
 
 end CBV.C05
